@@ -120,7 +120,7 @@ package httpserver
 //@   ensures [streaming_body_goes_to_the_client] rb.stream ==> (directCopies == old(directCopies) + 1 && bufferedCopies == old(bufferedCopies))
 //@   ensures [buffered_body_goes_to_the_buffer] !rb.stream ==> (bufferedCopies == old(bufferedCopies) + 1 && directCopies == old(directCopies))
 
-//@ unit redirect_site frames=on props=C15 filter=`httpserver\.redirPlaintextHost$`
+//@ unit redirect_site frames=on props=C15,C02 filter=`httpserver\.redirPlaintextHost$`
 //@ // the synthesised HTTP site answers for the WHOLE host on the HTTP port (no path: every plaintext request to that host is
 //@ // redirected, with its own URI), carries exactly the redirect middleware, and shares the HTTPS site's certificate manager
 //@ extern strconv.Itoa
@@ -138,8 +138,10 @@ package httpserver
 //@   ensures [only_the_redirect_middleware] len(result.middleware) == 1
 //@   ensures [same_listen_host_and_manager] result.ListenHost == cfg.ListenHost && result.TLS != nil && result.TLS.Manager == cfg.TLS.Manager
 //@   ensures [fresh_site] fresh(result)
+//@   // C02: the synthesised site serves nothing from disk - it has no root and is there only to redirect
+//@   ensures [no_document_root_of_its_own] result.Root == "" && len(result.HiddenFiles) == 0
 
-//@ unit redirect_handler frames=on props=C15 filter=`httpserver\.redirPlaintextHost\$1\$1$`
+//@ unit redirect_handler frames=on props=C15,C02 filter=`httpserver\.redirPlaintextHost\$1\$1$`
 //@ // the handler of a synthesised HTTP site: a permanent redirect to https on the same host (port stripped, the configured
 //@ // HTTPS port appended unless it is the default), same request URI (escaped path and query exactly as received)
 //@ extern (*net/url.URL).RequestURI
@@ -151,7 +153,10 @@ package httpserver
 //@ extern invoke:(net/http.ResponseWriter).Header
 //@   ensures result != nil
 //@ extern (net/http.Header).Set
+//@ ghost redirects int
 //@ extern net/http.Redirect
+//@   modifies ghost:redirects
+//@   ensures redirects == old(redirects) + 1
 //@ define splitFails() bool = ret(2, net.SplitHostPort(r.Host)) != nil
 //@ define hostPart() string = ret(0, net.SplitHostPort(r.Host))
 //@ func redirPlaintextHost$1$1
@@ -162,6 +167,8 @@ package httpserver
 //@   at call net/http.Redirect assert [location_bare_host_custom_port] (redirPort != "" && splitFails()) ==> arg2 == "https://" + net.JoinHostPort(r.Host, redirPort) + r.URL.RequestURI()
 //@   at call net/http.Redirect assert [location_host_custom_port] (redirPort != "" && !splitFails()) ==> arg2 == "https://" + net.JoinHostPort(hostPart(), redirPort) + r.URL.RequestURI()
 //@   ensures [written] result0 == 0
+//@   modifies ghost:redirects
+//@   ensures [every_plaintext_request_is_redirected_never_passed_on] redirects == old(redirects) + 1
 
 //@ unit make_servers_tls_off frames=on props=C15 filter=`httpserver\.httpContext\)\.MakeServers$`
 //@ // "sites declared as plain HTTP never have TLS enabled": after MakeServers no site on the HTTP port or with scheme http has TLS on
@@ -1031,3 +1038,38 @@ package httpserver
 //@   ensures [unparsable_logged_as_given] net.ParseIP(ip) == nil ==> result == ip
 //@   ensures [v4_with_the_v4_mask] (net.ParseIP(ip) != nil && net.ParseIP(ip).To4() != nil) ==> result == net.ParseIP(ip).Mask(l.V4ipMask).String()
 //@   ensures [others_with_the_v6_mask] (net.ParseIP(ip) != nil && net.ParseIP(ip).To4() == nil) ==> result == net.ParseIP(ip).Mask(l.V6ipMask).String()
+
+//@ unit normalized_key frames=on props=C06,C15,C11 filter=`httpserver\.normalizedKey$`
+//@ // The key a directive's setup looks its site up by (GetConfig) is computed EXACTLY like the key InspectServerBlocks files
+//@ // the site under: the standardised address, normalised, rendered by Address.Key - or the text as given when it does not
+//@ // standardise. (standardizeAddress writes only the URL object it has just parsed itself: read as a function here.)
+//@ func standardizeAddress
+//@   pure
+//@ func (Address).Normalize
+//@   pure reads G:github.com/tmpim/casket/caskethttp/httpserver.CaseSensitivePath
+//@ func (Address).Key
+//@   pure
+//@ func normalizedKey
+//@   ensures [same_key_as_the_one_the_site_is_filed_under] (ret(1, standardizeAddress(key)) != nil ==> result == key) && (ret(1, standardizeAddress(key)) == nil ==> result == ret(0, standardizeAddress(key)).Normalize().Key())
+
+//@ unit logger_start frames=on props=C08,C20 nilchecks=on filter=`httpserver\.Logger\)\.Start$`
+//@ // C08 "a failed load leaves nothing behind": a log roller is published in the process-wide roller table (GetLogWriter)
+//@ // only AFTER the log file could be opened - a Start that fails has published nothing, so a later valid configuration for
+//@ // the same file gets a roller with its own rotation settings
+//@ ghost rollersPublished int
+//@ func (LogRoller).GetLogWriter
+//@   modifies ghost:rollersPublished
+//@   ensures rollersPublished == old(rollersPublished) + 1 && result != nil
+//@ func parseSyslogAddress
+//@ extern github.com/hashicorp/go-syslog.NewLogger
+//@ extern github.com/hashicorp/go-syslog.DialLogger
+//@ extern os.OpenFile
+//@   ensures result1 == nil ==> result0 != nil
+//@ extern (*os.File).Close
+//@ extern log.New
+//@   ensures result != nil
+//@ func (*Logger).Start
+//@   requires l != nil
+//@   modifies Logger.fileMu, Logger.writer, Logger.Logger, LogRoller.Filename, ghost:rollersPublished
+//@   ensures [a_failed_start_publishes_no_roller] result != nil ==> rollersPublished == old(rollersPublished)
+//@   ensures [at_most_one_roller] rollersPublished <= old(rollersPublished) + 1
